@@ -15,7 +15,10 @@
 (*      is found in the media type, not only in its subtype)                 *)
 (* Flags: a m n r : BOOLEAN, t : "" | "xml" | "json" | "html", e : BOOLEAN   *)
 (*      (-e foo=bar), u : BOOLEAN (-u: non-strict XML decoding),             *)
-(*      q : "ns" | "empty" | "num" (the kind of query given)                 *)
+(*      q : "ns" | "empty" | "num" | "bool" (the kind of value the query     *)
+(*      yields) | "err" (well-formed, but its evaluation fails on every      *)
+(*      document: an unbound variable) | "bad" (not an XPath expression:     *)
+(*      nothing is processed, one diagnostic, no output)                     *)
 (* For every file the specification yields                                  *)
 (*   [visit |-> walked at all, parse |-> "xml"|"json"|"html"|"none",         *)
 (*    diag |-> a diagnostic on stderr is owed, records |-> "none" |          *)
@@ -29,7 +32,7 @@ RECURSIVE Under(_, _, _)
 \* is entry i below a directory argument (at any depth)?
 Under(tree, i, fuel) == IF tree[i].in = 0 \/ fuel = 0 THEN FALSE ELSE TRUE
 \* a directory is descended only with -r; without it the directory argument is reported and skipped
-Visited(tree, fl, i) == tree[i].in = 0 \/ fl.r
+Visited(tree, fl, i) == fl.q # "bad" /\ (tree[i].in = 0 \/ fl.r)
 ExtType(cls) == CASE cls \in {"xml", "xmlbad", "xmlent", "dangling", "linkxml", "svg"} -> "xml" [] cls = "json" -> "json" [] cls = "html" -> "html" [] OTHER -> "none"
 ParseType(fl, cls) == IF fl.t # "" THEN fl.t ELSE ExtType(cls)
 \* does the content parse under the chosen type?  ("unk": not determined - e.g. JSON text read as XML)
@@ -42,17 +45,20 @@ Parses(fl, cls, pt) ==
     [] cls \in {"json", "txtjson"} -> IF pt = "json" THEN "yes" ELSE "unk"
     [] cls = "html" -> IF pt = "html" THEN "yes" ELSE "unk"
     [] OTHER -> "unk"
-Records(fl) == IF fl.q = "empty" THEN "none"
-               ELSE IF fl.q = "num" THEN "first"
+Records(fl) == IF fl.q \in {"empty", "err", "bad"} THEN "none"
+               ELSE IF fl.q \in {"num", "bool"} THEN "first"
                ELSE IF fl.m THEN "xml" ELSE IF fl.a THEN "each" ELSE "first"
 FileSpec(tree, fl, i) ==
   LET e == tree[i]
       visit == Visited(tree, fl, i)
       pt == ParseType(fl, e.cls)
       ok == Parses(fl, e.cls, pt)
-  IN IF IsDirE(e) THEN [visit |-> visit, parse |-> "none", diag |-> (e.in = 0 /\ ~fl.r), records |-> "none", prefix |-> FALSE, det |-> TRUE]
+  IN IF IsDirE(e) THEN [visit |-> visit, parse |-> "none", diag |-> (e.in = 0 /\ ~fl.r /\ fl.q # "bad"), records |-> "none", prefix |-> FALSE, det |-> TRUE]
      ELSE IF ~visit THEN [visit |-> FALSE, parse |-> "none", diag |-> FALSE, records |-> "none", prefix |-> FALSE, det |-> TRUE]
-     ELSE [visit |-> TRUE, parse |-> pt, diag |-> (ok = "no"), records |-> IF ok = "yes" THEN Records(fl) ELSE "none",
+     \* (a file that parses but on which the query fails owes a diagnostic naming it, and no record)
+     ELSE [visit |-> TRUE, parse |-> pt, diag |-> (ok = "no" \/ (ok = "yes" /\ fl.q = "err")), records |-> IF ok = "yes" THEN Records(fl) ELSE "none",
            prefix |-> ~fl.n /\ e.cls # "stdinxml", det |-> ok # "unk"]
 Spec(tree, fl) == [i \in 1..Len(tree) |-> FileSpec(tree, fl, i)]
+\* diagnostics that name no file: the expression itself is rejected before any input is touched
+GlobalDiag(fl) == fl.q = "bad"
 =============================================================================
